@@ -92,7 +92,11 @@ def match_finding(findings, key):
     """key: dict with at least unit, template and the case parameters."""
     for f in findings:
         k = f.get("key", {})
-        if k.get("unit") != key.get("unit"):
+        ku = k.get("unit")
+        if isinstance(ku, list):
+            if key.get("unit") not in ku:
+                continue
+        elif ku is not None and ku != key.get("unit"):
             continue
         if "template" in k and k["template"] != key.get("template"):
             continue
